@@ -835,8 +835,10 @@ class StrategyBase(Node):
         if self._paper_trade:
             if newpt:
                 self._paper.update(date)
-                self._paper.run()
-                self._paper.update(date)
+                # mirror Backtest.run: a bankrupt strategy no longer runs
+                if not self._paper.bankrupt:
+                    self._paper.run()
+                    self._paper.update(date)
             # update price
             self._price = self._paper.price
             _w(self._prices)[inow] = self._price
